@@ -178,7 +178,18 @@ class SyncExec:
         self.logf.close()
 
 
+def _small_step(s: dict, cap: int = 1500) -> dict:
+    out = dict(s)
+    for k in ("v", "x", "w", "amb", "items"):
+        if k in out:
+            js = json.dumps(out[k])
+            if len(js) > cap:
+                out[k] = {"$elided": f"{len(js)} characters of value AST", "head": js[:300]}
+    return out
+
+
 def _compact_history(h: dict, max_steps: int = 12) -> dict:
+    h = dict(h, steps=[_small_step(s) for s in h.get("steps", [])[:max_steps]] + h.get("steps", [])[max_steps:])
     return {
         "seed": h.get("seed"),
         "env": h.get("env"),
